@@ -192,6 +192,25 @@ func ruleSem(env EnumEnv, p Prop, fv FValue) bool {
 			return false // an implicit-presence scalar at its zero value is not populated
 		}
 		return tyOK(env, p.T, fv.One)
+	case PMap:
+		if p.Req && len(fv.List) == 0 {
+			return false
+		}
+		if m := p.MapR; m != nil {
+			n := uint64(len(fv.List))
+			if m.Min != nil && n < *m.Min {
+				return false
+			}
+			if m.Max != nil && n > *m.Max {
+				return false
+			}
+		}
+		for _, v := range fv.List {
+			if !tyOK(env, p.T, v) {
+				return false
+			}
+		}
+		return true
 	case PArray:
 		if req && len(fv.List) == 0 {
 			return false
